@@ -5,7 +5,7 @@
 (*                                                                         *)
 (* The definitions are in ExcelValues.  This module is the enumerator:     *)
 (* the state is a cursor (operator, a, b[, c]) through Ops x Pool x Pool   *)
-(* (x Pool when Triples), the laws named in the property are invariants    *)
+(* (Pool^3 when Triples), the laws named in the property are invariants    *)
 (* over the definitions, and every visited state is exported as one test   *)
 (* vector (operands and the defined result) for the real code.             *)
 (***************************************************************************)
@@ -26,17 +26,18 @@ B == Pool[j]
 C == Pool[k]
 Unary == Op \in UnaryOps
 
+\* Init chooses the operator and the left operand (and, for triples, the
+\* middle one); the cursor then advances through the last operand.
 Init == /\ o \in (IF Triples THEN {1} ELSE 1..Len(Ops))
-        /\ i = 1 /\ j = 1 /\ k = 1
+        /\ i \in 1..N
+        /\ j \in (IF Triples THEN 1..N ELSE {1})
+        /\ k = 1
 
-\* the cursor advances like an odometer: c fastest (triples only), then b, then a
-NextC == /\ Triples /\ k < N
+NextB == /\ ~Triples /\ ~Unary /\ j < N          \* next right operand
+         /\ j' = j + 1 /\ UNCHANGED <<o, i, k>>
+NextC == /\ Triples /\ k < N                     \* next third operand
          /\ k' = k + 1 /\ UNCHANGED <<o, i, j>>
-NextB == /\ ~Unary /\ j < N /\ (Triples => k = N)
-         /\ j' = j + 1 /\ k' = 1 /\ UNCHANGED <<o, i>>
-NextA == /\ i < N /\ (Unary \/ j = N) /\ (Triples => k = N)
-         /\ i' = i + 1 /\ j' = 1 /\ k' = 1 /\ UNCHANGED o
-Next == NextC \/ NextB \/ NextA
+Next == NextB \/ NextC
 Spec == Init /\ [][Next]_vars
 
 TypeOK == o \in 1..Len(Ops) /\ i \in 1..N /\ j \in 1..N /\ k \in 1..N
@@ -125,7 +126,7 @@ Transitive == (Triples /\ NonBlankScalar(A) /\ NonBlankScalar(B) /\ NonBlankScal
 B2N(p) == IF p THEN 1 ELSE 0
 
 ExportPair ==
-  PrintT(ToJson([op |-> Op, a |-> A, b |-> IF Unary THEN <<>> ELSE B, r |-> R,
+  PrintT(ToJson([at |-> <<o, i, j, k>>, op |-> Op, a |-> A, b |-> IF Unary THEN <<>> ELSE B, r |-> R,
      ante |-> [errL |-> B2N(IsErr(A)),
                errR |-> B2N(~Unary /\ ~IsErr(A) /\ IsErr(B)),
                div0 |-> B2N(Op = "/" /\ IsNumV(ToNum(A)) /\ Scalar(B) /\ ToNum(B) = Zero),
@@ -138,7 +139,7 @@ ExportPair ==
 \* comparison operators (the result of a comparison is again an operand)
 CmpSeq == <<"=", "<>", "<", "<=", ">", ">=">>
 ExportTriple ==
-  PrintT(ToJson([a |-> A, b |-> B, c |-> C,
+  PrintT(ToJson([at |-> <<o, i, j, k>>, a |-> A, b |-> B, c |-> C,
      nested |-> [q \in 1..6 |-> Compare(CmpSeq[q], Compare(CmpSeq[q], A, B), C)],
      chain  |-> B2N(NonBlankScalar(A) /\ NonBlankScalar(B) /\ NonBlankScalar(C)
                     /\ Le(A, B) /\ Le(B, C))]))
